@@ -490,6 +490,10 @@ def url_validated(chk, repo, errs, rule):
 
 def hunt5_rules(chk, repo):
     """Rules written after the fifth defect hunt (F278)."""
+    # (round 7, seed C05-7) a request body stream that ends while it holds reading paused hands the pause back: otherwise the next request
+    # on the connection is never read - an open connection with an unanswered request and no handler running (rule shared with C08)
+    from rules import C08
+    C08.eof_resume_rule(chk, repo, "C05.resume.eof")
     import itertools
     from sa.dtable import Evaluator
     # ---- C05.lost.task: a start() task that connection_lost() lets go of has been cancelled ----------------------------------------------------------
